@@ -52,6 +52,8 @@ func caseFromSx(v sx.V) (Case, error) {
 		return unitCaseFromSx(v), nil
 	case "cache":
 		return cacheCase{cacheCaseFromSx(v)}, nil
+	case "lim":
+		return limCase{limCaseFromSx(v)}, nil
 	}
 	return nil, fmt.Errorf("unknown family %q", v.N(0).Str())
 }
@@ -70,6 +72,8 @@ func generate(prop, tier string, rng *Rng) []Case {
 		return genC20(tier, rng)
 	case "C18":
 		return genC18(tier, rng)
+	case "C16", "C17":
+		return genLim(tier, rng, prop)
 	case "C05":
 		return genC05(tier, rng)
 	case "C08":
